@@ -18,7 +18,7 @@
    ColumnSortHelper.Sort model to the replay, C02_reorganisation_invisible is the corollary for flush / compaction /
    merges / reopen. *)
 From Coq Require Import ZArith List Bool.
-From OG Require Import C02.Model C02.Proofs C02.Corr C02.Refine.
+From OG Require Import C02.Model C02.Proofs C02.Corr C02.Refine C02.FileCursor.
 Import ListNotations.
 Open Scope Z_scope.
 
@@ -123,6 +123,14 @@ Theorem C02_evaluator_accepts_only_allowed : forall c, check_case false 0 c = No
 Proof. exact check_case_allowed. Qed.
 Print Assumptions C02_evaluator_accepts_only_allowed.
 
+(* the FILE-CURSOR read path (aggregates computed file by file: fileLoopCursor / fileCursor.readData), ascending: the
+   blocks handed to the aggregate operators are, concatenated, exactly the last-write-wins rows of the series in time
+   order - for every allowed history (both variants of the walk agree when ascending) *)
+Theorem C02_filecursor_asc_is_lww : forall h s current, ops_allowed h = true ->
+  fc_rows current false (run false h) s = sel s (lww_table (writes_of h)).
+Proof. exact fc_rows_asc_is_lww. Qed.
+Print Assumptions C02_filecursor_asc_is_lww.
+
 (* ---- Examples: concrete histories on the executable model (closed by vm_compute) ---- *)
 Definition r (s t : Z) (fs : list (Z * Z)) : row := ((s, t), fs).
 Definition h1 : list op :=
@@ -150,3 +158,12 @@ Example C02_example_sort_dedup :
               r 3 0 [(0,38);(1,-1);(2,1);(3,1)]; r 0 3 [(2,0)]; r 0 3 [(1,31)]; r 2 4 [(0,36);(1,3);(2,0);(3,4)]; r 2 4 [(2,1);(3,1)]] in
   sort_dedup raw = lww_table raw.
 Proof. vm_compute. reflexivity. Qed.
+
+(* the repaired descending file-cursor walk on the witness history of Refuted.v (C02_desc_filecursor_current_refuted) *)
+Example C02_example_filecursor_desc_repaired :
+  let h := [ Write [r 0 2 [(0,1)]; r 0 3 [(0,1)]]; Flush false 1 1001; Write [r 0 6 [(0,1)]]; Flush false 2 1002; Write [r 0 2 [(0,7)]] ] in
+  ops_allowed h = true /\
+  fc_count false true (run false h) 0 0 9 0 = 3 /\
+  Corr_eq (rev (fc_rows false true (run false h) 0)) (sel 0 (lww_table (writes_of h))) = false /\
+  fc_rows false false (run false h) 0 = sel 0 (lww_table (writes_of h)).
+Proof. vm_compute. repeat split. Qed.
